@@ -36,13 +36,17 @@ def gen_parse():
     OVERRIDE_GUARD = ("for base in (LogicConv2d, LogicConv3d, OrPooling, LogicDense, GroupSum, torch.nn.Flatten, torch.nn.Identity):\n"
                       "if isinstance(layer, base) and type(layer) is not base:\n"
                       "raise ValueError(f'Cannot compile a {type(layer).__name__}: it is a subclass of {base.__name__}, not the layer itself.')")
-    PATCH_GUARD = ("if 'forward' in vars(module) or module._forward_hooks or module._forward_pre_hooks:\n"
-                   "raise ValueError(f'Cannot compile a {type(module).__name__} whose forward was replaced on the instance or that has forward hooks.')")
+    PATCH_GUARD = ["patched = [name for name, value in vars(module).items() if callable(value) and callable(getattr(type(module), name, None))]",
+                   "if patched or module._forward_hooks or module._forward_pre_hooks:\n"
+                   "raise ValueError(f'Cannot compile a {type(module).__name__} whose methods were replaced on the instance ({patched}) or that has forward hooks.')",
+                   "hooks = torch.nn.modules.module",
+                   "if hooks._global_forward_hooks or hooks._global_forward_pre_hooks:\n"
+                   "raise ValueError('Cannot compile while global module forward hooks are registered: they may change what the modules compute.')"]
     override_refused = False
     if (len(chain) == 3 and isinstance(chain[0], ast.For) and _flat(ast.unparse(chain[0])) == OVERRIDE_GUARD
             and ast.unparse(chain[1]) == "self._refuse_patched(layer)"
             and [_flat(ast.unparse(st)) for st in _method(mod, "CompiledLogicNet", "_refuse_patched").body
-                 if not (isinstance(st, ast.Expr) and isinstance(st.value, ast.Constant))] == [PATCH_GUARD]
+                 if not (isinstance(st, ast.Expr) and isinstance(st.value, ast.Constant))] == PATCH_GUARD
             and "self._refuse_patched(self.model)" in [ast.unparse(st) for st in f.body]):
         override_refused = True
         chain = chain[2:]
@@ -51,7 +55,9 @@ def gen_parse():
     node = chain[0]
     # the first loop finds the GroupSum: its offset cannot be expressed by the library (integer counts) and must be refused
     first_src = _flat(ast.unparse(loops[0]))
-    beta_refused = ("if isinstance(layer, GroupSum):\nif bool(torch.as_tensor(layer.beta).ne(0).any()):\nraise ValueError" in first_src)
+    # ... and k / tau as they are NOW (they may have been assigned after construction) must be valid, or the model has no function
+    beta_refused = ("if isinstance(layer, GroupSum):\nif not layer.k > 0:\nraise ValueError(f'Cannot compile a GroupSum with k = {layer.k}.')\n"
+                    "layer._check_tau(layer.tau)\nif bool(torch.as_tensor(layer.beta).ne(0).any()):\nraise ValueError" in first_src)
     # _parse_model starts from empty tables (it runs again whenever code is generated)
     head = [ast.unparse(st) for st in f.body if not (isinstance(st, ast.Expr) and isinstance(st.value, ast.Constant))][:2]
     resets = head == ["self.conv_layers, self.pooling_layers, self.linear_layers, self.linear_in_dims = ([], [], [], [])",
